@@ -227,7 +227,7 @@ class P:
             return ("var", name, None)
         if k == "NUMBER" or k == "PYTHON_LITERAL":
             t = self.next()
-            return ("lit", type(t[2]).__name__, t[2], None)
+            return ("lit", type(t[2]).__name__, t[2], t[1])  # the lexeme is kept: renderings repeat the number as written
         if k == "STRING":
             t = self.next()
             return ("lit", "str", t[2], t[1])
@@ -360,6 +360,8 @@ def same_ast(a, b):
             if la is None or lb is None:
                 return la is None and lb is None
             return la[:3] == lb[:3]
+        if a and a[0] == "lit" and b and b[0] == "lit":
+            return a[:3] == b[:3] and type(a[2]) is type(b[2])  # the spelling of a literal is not part of the tree
         return all(same_ast(x, y) for x, y in zip(a, b))
     return type(a) is type(b) and a == b
 
